@@ -65,12 +65,12 @@ let parse_item s =
     Some (IData (parse_nm nm, parse_ty ty, els))
   | "B" :: nm :: len :: _ -> Some (IBss (parse_nm nm, nat_of_int (int_of_string len)))
   | "R" :: nm :: t :: d :: _ -> Some (IRef (parse_nm nm, nat_of_int (int_of_string t), z_of_hex d))
-  | "L" :: nm :: l1 :: l2 :: d :: _ ->
+  | "L" :: nm :: l1 :: l2 :: d :: _ | "M" :: nm :: l1 :: l2 :: d :: _ ->   (* M: lref to the labels of the H function *)
     Some (ILref (parse_nm nm, nat_of_int (int_of_string l1),
                  (if l2 = "-" then None else Some (nat_of_int (int_of_string l2))), z_of_hex d))
   | "E" :: nm :: f :: _ -> Some (IExpr (parse_nm nm, nat_of_int (int_of_string f)))
   | "F" :: ty :: e -> Some (IFunc (parse_ty ty, fst (parse_expr e)))
-  | "G" :: _ -> Some IGFunc
+  | "G" :: _ | "H" :: _ -> Some IGFunc
   | "Oi" :: _ -> Some (IOther OImport)
   | "Op" :: _ -> Some (IOther OProto)
   | "Of" :: d :: _ | "Ox" :: d :: _ -> Some (IOther (OAlias (nat_of_int (int_of_string d))))
@@ -112,7 +112,11 @@ let run_case line =
     else (try List.assoc n labs with Not_found -> Z0) in
   let lay = layout items in
   let b = Buffer.create 1024 in
-  match load_check items with
+  (* two functions with labels (G, H): the model's rule "an lref needs a function holding its labels" per function:
+     L names labels of G, M labels of H *)
+  let has w = List.exists (fun s -> match words s with x :: _ -> x = w | _ -> false) raw in
+  let orphan = (has "M" && not (has "H")) || (has "L" && has "H" && not (has "G")) in
+  match (if orphan then Some EWrongLref else load_check items) with
   | Some EBinaryIO -> print_endline "E:binary_io"
   | Some EWrongLref -> print_endline "E:wrong_lref"
   | None ->
